@@ -118,9 +118,10 @@ class RoundTrip(Oracle):
             for b in d.bundles:
                 printed.setdefault(str(b.identifier), set()).add(b.identifier.uri)
             dup = sorted(k for k, us in printed.items() if len(us) > 1)
+            uris = sorted(u for k, us in printed.items() if len(us) > 1 for u in us)
         except Exception:
-            pass
-        return {"bundle_keys_printed_identically": dup}
+            uris = []
+        return {"bundle_keys_printed_identically": dup, "colliding_bundle_uris": uris}
 
 
 class C01(RoundTrip):
